@@ -523,6 +523,8 @@ impl MediaStreamTrack for SampleStreamTrack {
             // point (last source dropped, `stop()`) completes this future even though it
             // has not been polled yet, so that wake-up cannot be lost between a check
             // and the `await`.
+            #[cfg(rustrtc_verif)]
+            crate::verif_sched::yield_point(crate::verif_sched::RECV_NOTIFIED_CREATE);
             let notified = self.notify.notified();
             #[cfg(rustrtc_verif)]
             crate::verif_sched::yield_point(crate::verif_sched::RECV_LOAD_ENDED);
